@@ -108,6 +108,15 @@ def wave_arg(case, kind='dec'):
     return (np.array(w.dec_lo), np.array(w.dec_hi)) if kind == 'dec' else (np.array(w.rec_lo), np.array(w.rec_hi))
 
 
+def scribble(wa):
+    """After construction the caller is free to reuse its filter arrays: overwrite them. A module that kept a view
+    of them instead of its own copy changes behaviour and fails the ordinary oracle."""
+    if isinstance(wa, tuple):
+        for a in wa:
+            if isinstance(a, np.ndarray):
+                a[...] = 7.0
+
+
 def axis_lens(case):
     """Filter length per axis."""
     if case['dim'] == 1:
@@ -135,7 +144,10 @@ def _module(case):
     with dwtu.default_dtype(dwtu.tdt(case['dtype'])):
         sib = dwtu.sibling(case['wave']) if (case.get('reused') and not case.get('wave_row')) else None
         if sib is None:
-            return cls(J=case['J'], wave=wave_arg(case), mode=msp)
+            wa = wave_arg(case)
+            m = cls(J=case['J'], wave=wa, mode=msp)
+            scribble(wa)
+            return m
 
         def warm(m):
             n = max(case['size']) + 2 * dwtu.flen(case['wave'])
